@@ -19,7 +19,7 @@ def sweep(path_filter, only=None):
             continue
         if only and pid not in only:
             continue
-        wt = f"/tmp/t2sweep_{pid}"
+        wt = os.environ.get("SWEEP_PREFIX", "/tmp/t2sweep_") + pid
         subprocess.run(["git", "-C", "/repo", "worktree", "remove", "--force", wt], capture_output=True)
         subprocess.run(["git", "-C", "/repo", "worktree", "add", "--detach", wt, "HEAD"], capture_output=True, check=True)
         try:
@@ -29,6 +29,7 @@ def sweep(path_filter, only=None):
                 continue
             r = exttie.run(wt)
             broken = sorted(k for k, v in r["theorems"].items() if not v["ok"])
+            roots = sorted(k for k in broken if not r["theorems"][k].get("depends_on_broken"))
             left = sorted(base_th - set(r["theorems"]))
             why = {}
             for u, rep in r["report"].items():
@@ -37,10 +38,12 @@ def sweep(path_filter, only=None):
                         why[f"{u}.{fn}"] = msg
                 if rep.get("error"):
                     why[u] = rep["error"]
+            unmod = {f"{u}.{fn}": msg for u, rep in r["report"].items() if isinstance(rep, dict)
+                     for fn, msg in (rep.get("unmodelled") or {}).items()}
             touched = sorted({l[4:].split("(")[0].strip() for l in open(patch) if l.startswith("@@")})
-            rows.append(dict(id=pid, kind="refactor" if "/refactors/" in d else "seeded", broken=broken, left_fragment=left, why=why,
+            rows.append(dict(id=pid, kind="refactor" if "/refactors/" in d else "seeded", broken=broken, roots=roots, left_fragment=left, unmodelled=unmod, why=why,
                              errors={k: (r["theorems"][k]["error"] or "")[:160] for k in broken},
-                             unchanged=not broken and not left, key=r["key"], same_text=r["key"] == base["key"]))
+                             unchanged=not broken and not left and not unmod, key=r["key"], same_text=r["key"] == base["key"]))
         finally:
             subprocess.run(["git", "-C", "/repo", "worktree", "remove", "--force", wt], capture_output=True)
         print(json.dumps(rows[-1])[:400], file=sys.stderr, flush=True)
